@@ -26,6 +26,12 @@ fn materialise(w: &World) -> std::io::Result<()> {
                 }
                 std::fs::write(p, b)?;
             }
+            Node::Link(t) => {
+                if let Some(parent) = std::path::Path::new(p).parent() {
+                    std::fs::create_dir_all(parent)?;
+                }
+                std::os::unix::fs::symlink(t, p)?;
+            }
         }
     }
     Ok(())
@@ -76,6 +82,7 @@ pub fn run(args: &Args, seed: u64) -> i32 {
     let original_cwd = std::env::current_dir().ok();
     let stream = mix(seed, crate::prng::fnv1a(b"incsim/realfs"));
     let (mut compared, mut skipped, mut mismatches, mut both_panic) = (0u64, 0u64, 0u64, 0u64);
+    let (mut with_links, mut links_followed) = (0u64, 0u64);
     let mut first_bad: Vec<String> = vec![];
     for i in 0..n {
         let mut rng = Rng::new(mix(stream, i));
@@ -109,6 +116,10 @@ pub fn run(args: &Args, seed: u64) -> i32 {
         let real = run_real(w);
         let _ = std::env::set_current_dir("/");
         let sim = run_world(w);
+        if w.nodes.values().any(|n| matches!(n, Node::Link(_))) {
+            with_links += 1;
+        }
+        links_followed += sim.history.iter().filter(|c| c.fired.iter().any(|f| f.starts_with("symlink_followed"))).count() as u64;
         match (&real, &sim.result) {
             (Ok((a, p, s, l, ns)), RunResult::Returned(o)) => {
                 compared += 1;
@@ -148,8 +159,8 @@ pub fn run(args: &Args, seed: u64) -> i32 {
     }
     let _ = std::fs::remove_dir_all(&base);
     println!(
-        "realfs differential: worlds={} compared={} skipped={} both_panic={} mismatches={}",
-        n, compared, skipped, both_panic, mismatches
+        "realfs differential: worlds={} compared={} skipped={} both_panic={} worlds_with_symlinks={} seam_calls_through_symlinks={} mismatches={}",
+        n, compared, skipped, both_panic, with_links, links_followed, mismatches
     );
     for b in &first_bad {
         println!("MISMATCH {}", b);
